@@ -460,11 +460,13 @@ fn body(c: &mut C, thorough: bool) -> Result<(), Violation> {
     let horizon = c.now + if thorough { 200_000_000 } else { 90_000_000 };
     let mut extra_queries = c.tape.draw(3);
     let mut steps = 0;
+    let mut idle = 0u32;
     loop {
         steps += 1;
         if steps > 600 {
             break;
         }
+        let tx_before_poll = c.stats.get("frames.tx");
         poll(c)?;
         check_results(c)?;
         if c.qs.iter().all(|q| q.done) {
@@ -492,6 +494,31 @@ fn body(c: &mut C, thorough: bool) -> Result<(), Violation> {
                 break;
             }
         };
+        // C13: an extra poll strictly before that instant (no datagram delivered, no socket call) transmits
+        // nothing; a poll that moved nothing is followed by a later deadline
+        if c.props.has("C13") {
+            if next <= c.now {
+                idle += 1;
+                if idle >= 4 && c.stats.get("frames.tx") == tx_before_poll && d.map(|t| t <= c.now).unwrap_or(false) {
+                    return Err(viol("C13", "no-spin", "C13.spin/dns-resolver", format!("after {} consecutive polls at t={} us that moved no frame, poll_at still returns {:?}", idle, c.now, d)));
+                }
+            } else {
+                idle = 0;
+                if next > c.now + 1 && c.tape.draw(3) == 0 {
+                    let t = if c.tape.draw(4) == 0 { next - 1 } else { c.now + 1 + c.tape.draw((next - c.now - 1) as u64) as i64 };
+                    let before = c.stats.get("frames.tx");
+                    let save = c.now;
+                    c.now = t;
+                    poll(c)?;
+                    c.stats.inc("c13.early-probes");
+                    if c.stats.get("frames.tx") > before {
+                        return Err(viol("C13", "sufficiency", "C13.early-tx/dns-resolver", format!("poll_at at t={} us returned {:?}; an extra poll at t={} us with nothing delivered in between transmitted a frame", save, d, t)));
+                    }
+                    check_results(c)?;
+                    continue;
+                }
+            }
+        }
         c.now = next.max(c.now);
         if c.now > horizon {
             break;
